@@ -243,6 +243,19 @@ def _merge(summaries):
 # ----------------------------------------------------------------------------- replay
 
 
+def _standalone(modname, case):
+    """a plain script (only cdd imports) that replays the case without the explorer, when the check module can render one"""
+    try:
+        import importlib
+
+        mod = importlib.import_module(modname)
+        if hasattr(mod, "standalone"):
+            return mod.standalone(case)
+    except Exception as e:  # noqa
+        return "# (no stand-alone script: %s)" % e
+    return None
+
+
 def write_replay(prop, modname, sig, example):
     d = os.path.join(VERIF, "replays", prop)
     os.makedirs(d, exist_ok=True)
@@ -259,6 +272,7 @@ def write_replay(prop, modname, sig, example):
                 observed=example.get("observed"),
                 detail=example.get("detail"),
                 how_to_replay="cd /verif && ./check {} --replay {}".format(prop, path),
+                standalone_script=_standalone(modname, example["case"]),
             ),
             f,
             indent=1,
